@@ -49,10 +49,21 @@ def codes_from_header():
     # the return-codes group: from CIF_OK up to (not including) the traversal directives
     start = txt.index('#define CIF_OK')
     end = txt.index('#define CIF_TRAVERSE_CONTINUE')
-    out = []
-    for m in re.finditer(r'^#define\s+(CIF_[A-Z0-9_]+)\s+(-?\d+)\s*$', txt[start:end], re.M):
-        out.append((m.group(1), int(m.group(2))))
-    return out
+    names = [m.group(1) for m in re.finditer(r'^#define\s+(CIF_[A-Z0-9_]+)\s+\S', txt[start:end], re.M)]
+    # the VALUE of each code is what the C compiler makes of its definition (052 is forty-two), not what the text looks like
+    import tempfile
+    os.makedirs(_build.BUILD, exist_ok=True)
+    with tempfile.TemporaryDirectory(dir=_build.BUILD) as td:
+        src = os.path.join(td, 'codes.c')
+        with open(src, 'w') as f:
+            f.write('#include <stdio.h>\n#include "cif.h"\nint main(void) {\n')
+            for n in names:
+                f.write('    printf("%s %%ld\\n", (long) (%s));\n' % (n, n))
+            f.write('    return 0;\n}\n')
+        exe_ = os.path.join(td, 'codes')
+        subprocess.run(['gcc', '-I' + _build.REPO, '-I' + os.path.join(_build.REPO, 'src'), '-o', exe_, src], check=True)
+        lines = subprocess.run([exe_], stdout=subprocess.PIPE, check=True).stdout.decode().split('\n')
+    return [(l.split()[0], int(l.split()[1])) for l in lines if l.strip()]
 
 
 def main():
